@@ -22,7 +22,7 @@ DEFAULTS = {
 
 class Prop:
     def __init__(self, pid, module, feature, functions, bounds, outside, assumptions=(), stubs=(),
-                 rules=(), runs=None, design_ref="", trusted=(), claim="", note=""):
+                 rules=(), runs=None, design_ref="", trusted=(), claim="", note="", extra_modules=()):
         self.id = pid
         self.module = module
         self.feature = feature
@@ -37,6 +37,7 @@ class Prop:
         self.design_ref = design_ref
         self.trusted = list(trusted)
         self.claim = claim
+        self.extra_modules = list(extra_modules)
         self.note = note or ("Trusted: Kani's MIR->goto translation, CBMC's bit-precise semantics and SAT back end, the "
                              "harness oracle. Bounds: " + bounds + ". Outside the claim: " + outside)
 
@@ -66,7 +67,7 @@ NOT_APPLICABLE = {
 
 # properties whose check is planned in DESIGN.md but not built yet in this revision
 PENDING = {k: "check not built yet in this revision of /verif (planned, DESIGN.md §4); not claimed until it exists"
-           for k in ["C04", "C05", "C07", "C08", "C11", "C12", "C14", "C16",
+           for k in ["C04", "C05", "C07", "C08", "C12", "C14", "C16",
                      "C17", "C18", "C19"]}
 
 
@@ -274,4 +275,37 @@ _add(Prop(
           "frames[hop..], and size_hint brackets the closed-form number of chunks still to come (whose recurrence is "
           "asserted, so the count floor((L-b)/h)+1 and the hint's consistency follow for whole runs; whole runs are "
           "also decided directly for L <= 8).",
+))
+
+
+_add(Prop(
+    "C11", "c11_rms", "c11",
+    functions=["dasp_rms::Rms::{new, verif_from_state (hook), next, next_squared, current, reset, window_frames, into_parts, "
+               "calc_rms_squared}", "dasp_signal::rms::{SignalRms::rms, Rms::next, Rms::next_squared, is_exhausted}",
+               "dasp_sample::FloatSample::sample_sqrt -> ops::{f32,f64}::sqrt in the std AND the no_std build",
+               "dasp_ring_buffer::Fixed::{push, iter_mut, len} underneath"],
+    bounds="one next_squared step from ANY state (window position, contents, running sum) for f32 mono windows N in 1..=4 "
+           "and [i16;2] N=2; exact-grid step (i8 inputs, integer oracle) N in {2,3} with |k| <= 15 (quick) and N in {3,4} "
+           "over all of i8 (thorough); reset from any state; sqrt wiring with sqrt stubbed by a marker; no_std sqrt for "
+           "every finite x in [2^-100, 2^100] (f32 and f64); thorough: three arbitrary pushes from the zero state (f32, N=2) "
+           "against an f64 recomputation with a rounding bound, and the std sqrt contract",
+    outside="a rigorous error bound for long general-float histories (needs an inductive real-arithmetic error invariant: "
+            "proof-assistant territory); window lengths > 4; integer formats wider than 8 bits in the exact-grid scheme; "
+            "f64 frames in the structural step",
+    stubs=["dasp_sample::ops::f32::sqrt -> x + 1.0 marker (wiring::* only)"],
+    assumptions=["structural step: window entries and running sum are finite, non-negative and far from overflow",
+                 "grid step: the pre-state satisfies the invariant 'running sum == exact sum of the window' (it is shown to be preserved)"],
+    runs=[("harness", "debug", ["c11"]), ("harness_nostd", "debug", ["c11n"])],
+    extra_modules=["c11_nostd"],
+    rules=[
+        {"match": r"grid_full_", "tier": "thorough", "timeout": 3000},
+        {"match": r"history::|std_sqrt", "tier": "thorough", "timeout": 3000},
+    ],
+    design_ref="DESIGN.md §4 C11",
+    claim="From every state the solver shows one RMS step replaces exactly the oldest square, updates the running sum by "
+          "+new -evicted with the clamp at zero, divides by the window length, is per-channel, never negative or NaN; on "
+          "the exact grid the running sum provably stays the exact sum of the last N squares (integer oracle), so the "
+          "output is the true mean square for histories of any length on that grid; reset restores silence; next/current "
+          "are the square root of the squared variants; the adaptor feeds each source frame once; and in the no_std build "
+          "the approximate sqrt is within 7 % for f32 and f64.",
 ))
